@@ -13,7 +13,8 @@ RULE = ("cases = a generated class (random fields a,b, a non-random field k whos
         "constraints with Boolean combinations (| & ~) of dynamic-constraint references, consecutive calls with "
         "contradicting inline sets, calls on a holder object referencing a list element's dynamic block "
         "(it.arr[i].d0()), and 2-4 randomize() calls on a holder whose CLASS constraint is self.arr[self.sel].dN() with the "
-        "non-random index sel reassigned between the calls.  Oracle per call: enumerated S_ref = class blocks AND this call's inline block with dynamic "
+        "non-random index sel reassigned between the calls; a sub-domain with dynamic blocks whose bodies are soft statements "
+        "checks that the outcome of one given call (same seed) is the same on a fresh object and after a history of other calls.  Oracle per call: enumerated S_ref = class blocks AND this call's inline block with dynamic "
         "references expanded over the fields of the object they were reached through; free draw in S_ref, SolveFailure iff "
         "empty; pinned probes: a value the previous call's inline block forbade must be accepted again, a value the "
         "referenced dynamic block forbids on this instance must be rejected, an unreferenced dynamic block must not "
@@ -170,7 +171,121 @@ def holder_ref(cls, class_stmts, dyn, pair, objs, kvals, lvals):
     return htypes, hrf, env0, hstmts, hdyn
 
 
+
+
+# ------------------------------------------------------------------------------------------------
+# sub-domain: dynamic blocks whose bodies are SOFT statements.  Which of two conflicting softs wins is C05's subject;
+# here only "no trace": the outcome of one given call must not depend on which calls were made on the object before
+SOFTDYN_SRC = """
+@vsc.randobj
+class S(object):
+    def __init__(self):
+        self.a = vsc.rand_bit_t(4)
+        self.b = vsc.rand_bit_t(4)
+    @vsc.dynamic_constraint
+    def p0(self):
+        vsc.soft(self.a == %(v0)d)
+    @vsc.dynamic_constraint
+    def p1(self):
+        vsc.soft(self.a == %(v1)d)
+    @vsc.dynamic_constraint
+    def h(self):
+        self.b < 3
+"""
+
+
+def gen_softdyn_inline(d, must_conflict=False):
+    items = []
+    for _ in range(d.randint(1, 3)):
+        r = d.randint(0, 99)
+        if r < 35:
+            items.append(["p0"])
+        elif r < 60:
+            items.append(["p1"])
+        elif r < 85:
+            items.append(["soft", d.randint(0, 15)])
+        else:
+            items.append(["h"])
+    if must_conflict and len([i for i in items if i[0] != "h"]) < 2:
+        items = [["p0"], ["soft", d.randint(0, 15)]] if d.chance(50) else [["p0"], ["p1"]]
+        if d.chance(50):
+            items.reverse()
+    return items
+
+
+@hyp.composite
+def softdyn_cases(d):
+    v0 = d.randint(0, 15)
+    v1 = d.choice([v for v in range(16) if v != v0])
+    return {"softdyn": True, "v0": v0, "v1": v1, "history": [gen_softdyn_inline(d) for _ in range(d.randint(1, 4))],
+            "final": gen_softdyn_inline(d, must_conflict=True), "seed": d.seed()}
+
+
+def softdyn_call(o, items, seed):
+    vsc = import_vsc()
+    o.set_randstate(flat.mk_randstate(seed))
+    with o.randomize_with() as it:
+        for item in items:
+            if item[0] == "soft":
+                vsc.soft(it.a == item[1])
+            elif item[0] == "p0":
+                it.p0()
+            elif item[0] == "p1":
+                it.p1()
+            else:
+                it.h()
+
+
+def run_softdyn(case):
+    import enum as _enum
+    vsc = import_vsc()
+    info = {"calls": 0}
+    if not case.get("final") or not all(isinstance(i, list) and i and i[0] in ("p0", "p1", "soft", "h") for c_ in case["history"] + [case["final"]] for i in c_):
+        return [], info
+    src = SOFTDYN_SRC % {"v0": case["v0"], "v1": case["v1"]}
+    text = src + "# history (inline blocks of earlier calls): %s\n# final call: %s (seed %d)" % (cjson(case["history"]), cjson(case["final"]), case["seed"])
+
+    def Vs(kind, detail, extra):
+        return {"property": PROPERTY, "kind": kind, "detail": detail, "case": case, "text": text + "\n# " + extra}
+    reset_library()
+    try:
+        ns = {"vsc": vsc, "enum": _enum}
+        exec(compile(src, "<pvs-c06-softdyn>", "exec"), ns)
+        fresh, used = ns["S"](), ns["S"]()
+        for k, items in enumerate(case["history"]):
+            softdyn_call(used, items, case["seed"] + 1 + k)
+            info["calls"] += 1
+        softdyn_call(fresh, case["final"], case["seed"])
+        softdyn_call(used, case["final"], case["seed"])
+        info["calls"] += 2
+    except Exception as e:
+        ei = flat.defuse(e)
+        reset_library()
+        return [Vs("library_exception", "soft dynamic blocks: " + ei.sig, "%r" % ei)], info
+    af, au = int(fresh.a), int(used.a)
+    vals = set()
+    for item in case["final"]:
+        if item[0] == "soft":
+            vals.add(item[1])
+        elif item[0] == "p0":
+            vals.add(case["v0"])
+        elif item[0] == "p1":
+            vals.add(case["v1"])
+    if vals and af not in vals:
+        return [Vs("soft_ignored", "no referenced soft constraint is honoured although each is satisfiable alone",
+                   "fresh object: a=%d, referenced soft values %s" % (af, sorted(vals)))], info
+    if "h" in [i[0] for i in case["final"]] and (int(fresh.b) >= 3 or int(used.b) >= 3):
+        return [Vs("wrong_binding", "referenced hard dynamic block not enforced", "b=%d / %d" % (int(fresh.b), int(used.b)))], info
+    if af != au:
+        return [Vs("inline_left_a_trace", "the outcome of a call depends on which calls were made on the object before", 
+                   "final call on a fresh object: a=%d; the same call (same seed) after the history: a=%d" % (af, au))], info
+    info["conflict"] = len(vals) >= 2
+    return [], info
+
+
 def run_case(case):
+    if case.get("softdyn"):
+        return run_softdyn(case)
     vsc = import_vsc()
     cls = case["cls"]
     if not cls.get("lists"):
@@ -375,6 +490,10 @@ def run_case(case):
 
 def body(case, acc):
     vios, info = run_case(case)
+    if case.get("softdyn"):
+        acc.case(case, bool(info.get("conflict")) and len(case["history"]) >= 2, sample=SOFTDYN_SRC % {"v0": case["v0"], "v1": case["v1"]})
+        acc.label("dynamic blocks with soft bodies (history invariance)")
+        return vios
     nt = info.get("ninst", 0) >= 2 and info.get("kdiff") and info.get("multi_inline") and info.get("dyn_op")
     acc.case(case, bool(nt), sample=text_of(case))
     acc.label("calls", info.get("calls", 0))
@@ -390,11 +509,12 @@ def body(case, acc):
 
 
 def shards(tier):
-    return [{"i": i, "n": 120 if tier == "quick" else 4000} for i in range(16)]
+    return [{"i": i, "n": 120 if tier == "quick" else 4000} for i in range(15)] + \
+        [{"kind": "softdyn", "i": 0, "n": 150 if tier == "quick" else 4000}]
 
 
 def run_shard(spec, seed, tier, acc):
-    hyp.drive(cases(), body, seed, spec["n"], acc)
+    hyp.drive(softdyn_cases() if spec.get("kind") == "softdyn" else cases(), body, seed, spec["n"], acc)
 
 
 def replay(case):
